@@ -100,6 +100,10 @@ def decode(
     except (TypeError, ValueError):
         raise InvalidPayloadError()
 
+    # the JWT Claims Set is a JSON object (RFC 7519, section 7.2, step 10)
+    if not isinstance(claims, dict):
+        raise InvalidPayloadError()
+
     return Token(header, claims)
 
 
